@@ -209,7 +209,8 @@ def absorb_model(ctx, outs):
                 ctx.cov["states"] += int(m.group(1))
                 ctx.cov["transitions"] += int(m.group(1))
         if kind == "stmt":
-            expect_unseen, upto = expect_unseen
+            # (c14.py passes plain sets: witness situations 1-13 only)
+            expect_unseen, upto = expect_unseen if isinstance(expect_unseen, tuple) else (expect_unseen, 13)
             bad = set(tl.unseen(res, upto)) - expect_unseen
             if bad:
                 raise MachineryFailure("Tasks %s: witness situations never visited: %s" % (name, sorted(bad)))
